@@ -352,9 +352,11 @@ class ExponentiatedGradient(BaseEstimator, MetaEstimatorMixin):
             return (positive_probs >= random_state.rand(len(positive_probs))) * 1
         else:
             pred = self._pmf_predict(X)
+            # weights_ is indexed by predictor id but not necessarily ordered by it
+            weights = self.weights_[pred.columns]
             randomized_pred = np.zeros(pred.shape[0])
             for i in range(pred.shape[0]):
-                randomized_pred[i] = random_state.choice(pred.iloc[i, :], p=self.weights_)
+                randomized_pred[i] = random_state.choice(pred.iloc[i, :], p=weights)
             return randomized_pred
 
     def _pmf_predict(self, X):
